@@ -172,13 +172,14 @@ impl Scheduler for SimScheduler {
                             t.seen_unresolved.insert(k.clone());
                         }
                     }
-                    // Each pass calls twice and must resolve at least one item to continue, and
-                    // a resolved item never becomes unresolved again: a build that terminates
-                    // makes at most 2*(U+1) calls, U = distinct items ever seen in the worklist.
+                    // Each pass calls twice. To continue, a pass must resolve at least one item
+                    // (a resolved item never becomes unresolved again) or bring at least one
+                    // generated item into existence (at most one per item): a build that ends
+                    // makes at most 2*(2U+1) calls, U = distinct items ever seen in the worklist.
                     // Anything beyond is a hang, found deterministically, not by a wall clock.
                     let budget = self
                         .budget_override
-                        .unwrap_or(2 * t.seen_unresolved.len() as u32 + 6);
+                        .unwrap_or(4 * t.seen_unresolved.len() as u32 + 8);
                     if t.unresolved_calls > budget {
                         t.budget_exceeded = true;
                         true
